@@ -269,8 +269,11 @@ func TestC02(t *testing.T) {
 		rep.Distinct(stream)
 		rep.Count("damaged_streams", 1)
 		guard(rep, "kind=panic msg="+mi.Name, func() interface{} { return vh.Hex(stream) }, func() {
-			rd := &frame.Reader{ByteReader: bytes.NewReader(stream), DialectRW: genv.drw}
-			_ = rd.Initialize()
+			rd, ierr := newFrameSource(bytes.NewReader(stream), genv.drw, nil)
+			if ierr != nil {
+				rep.Violation("kind=undelivered msg=init", "a reader with a valid configuration could not be built: "+ierr.Error(), nil)
+				return
+			}
 			delivered := 0
 			for calls := 0; calls <= len(stream)+1; calls++ {
 				fr, err := rd.Read()
@@ -428,8 +431,11 @@ func TestC02(t *testing.T) {
 				rep.Distinct(stream)
 				rep.Count("resigned_wrong_checksum_frames", 1)
 				guard(rep, "kind=panic msg="+mi.Name, func() interface{} { return vh.Hex(stream) }, func() {
-					rd := &frame.Reader{ByteReader: bytes.NewReader(stream), DialectRW: genv.drw, InKey: key}
-					_ = rd.Initialize()
+					rd, ierr := newFrameSource(bytes.NewReader(stream), genv.drw, key)
+					if ierr != nil {
+						rep.Violation("kind=undelivered msg=init", "a keyed reader with a valid configuration could not be built: "+ierr.Error(), nil)
+						return
+					}
 					n := 0
 					for {
 						fr, err := rd.Read()
